@@ -259,16 +259,17 @@ def integral_scale_finite(cls, dim, opt):
     return True
 
 
-def integral_scale(cls, dim, len_scale, rescale, opt):
+def integral_scale(cls, dim, len_scale, rescale, opt, dps=DPS):
     """Integral of the documented correlation over [0, inf).
 
-    Adaptive (tanh-sinh) quadrature at 30 digits, split at the support edge of
-    compact models and at decade points for the others; the oscillatory JBessel
-    tail goes through ``quadosc`` (period 2 pi in h).  Returns
-    ``(value, error_estimate)`` as floats.
+    Adaptive (tanh-sinh) quadrature, split at the support edge of compact
+    models and at decade points for the others; the oscillatory JBessel tail
+    goes through ``quadosc`` (period 2 pi in h); the algebraic tail of the
+    Rational model is mapped to a smooth integrand on a finite interval
+    (h = v^(-1/(2 alpha - 1))).  Returns ``(value, error_estimate)`` as floats.
     """
     o = full_opt(cls, dim, opt)
-    with mp.workdps(DPS):
+    with mp.workdps(dps):
         s = rescale_mp(cls, rescale)
         ls = mp.mpf(len_scale)
         unit = ls / s  # r = unit * h
@@ -286,11 +287,23 @@ def integral_scale(cls, dim, len_scale, rescale, opt):
             v1, e1 = mp.quad(f, mp.linspace(0, split, 9), error=True)
             v2 = mp.quadosc(f, [split, mp.inf], period=2 * mp.pi * unit)
             return float(v1 + v2), float(e1) + 1e-12 * float(abs(v2))
+        if cls == "Rational":
+            al = mp.mpf(o["alpha"])
+            v1, e1 = mp.quad(f, [0, unit / 10, unit, 10 * unit], error=True)
+            # tail: h = v^(-k), k = 1/(2 alpha - 1): rho(h) dh = k (v^(2k) + 1/alpha)^(-alpha) dv
+            k = 1 / (2 * al - 1)
+
+            def g(v):
+                return k * (v ** (2 * k) + 1 / al) ** (-al)
+
+            vmax = mp.mpf(10) ** (-1 / k)
+            v2, e2 = mp.quad(g, [0, vmax / 2, vmax], error=True)
+            return float(v1 + unit * v2), float(e1 + unit * e2)
         scale = unit
         if cls in TPL_MODES and o.get("len_low", 0.0) > 0.0:
             scale = (mp.mpf(o["len_low"]) + ls) / s
         pts = [0, scale / 100, scale / 10, scale, 10 * scale, 100 * scale, mp.inf]
-        val, err = mp.quad(f, pts, error=True, maxdegree=10)
+        val, err = mp.quad(f, pts, error=True)
         return float(val), float(err)
 
 
